@@ -72,10 +72,12 @@ VALUE_OPS = {
     "trans_second_not_constant": "trans(as.buck 1000.0 0.3 32.0, as.polynomial 1)",
     "trans_constant_two_params": "trans(as.buck 1000.0 0.3 32.0, as.constant 1 2)",
     "trans_constant_no_param": "trans(as.buck 1000.0 0.3 32.0, as.constant)",
+    "trans_second_is_modifier": "trans(as.buck 1000.0 0.3 32.0, sum(as.constant 2))",
+    "spline_type_is_modifier": "spline(as.buck 1000.0 0.3 0.0 >0.8 sum(as.constant 1, as.constant 2) >1.4 as.buck 0.0 1.0 32.0)",
 }
 OTHER_OPS = [
     "unknown_target", "target_wrong_case", "grid_all_three", "grid_step_alone", "grid_negative_nr", "grid_zero_cutoff",
-    "grid_nr_not_integer", "grid_dr_not_number", "dlpoly_nr_not_multiple_of_4",
+    "grid_nr_not_integer", "grid_dr_not_number", "grid_not_finite", "grid_three_with_zero", "dlpoly_nr_not_multiple_of_4",
     "pair_key_no_dash", "pair_key_three_species", "missing_pair_section",
     "fs_key_without_arrow", "fs_key_two_arrows", "missing_embed_section", "missing_density_section",
     "species_without_data", "species_data_removed", "species_key_without_dot", "species_mass_not_number", "species_number_not_integer",
@@ -83,7 +85,7 @@ OTHER_OPS = [
     "formula_unparsable", "formula_undefined_symbol", "formula_unknown_function", "formula_calls_wrong_arity",
     "formula_param_reserved_word", "formula_param_not_identifier",
     "table_non_numeric", "table_xy_odd", "table_x_y_mismatch", "table_x_only", "table_y_only", "table_xy_and_x",
-    "table_no_data", "table_x_not_increasing", "table_x_repeated", "table_too_short", "table_unknown_interpolation",
+    "table_no_data", "table_not_finite", "table_x_not_increasing", "table_x_repeated", "table_too_short", "table_unknown_interpolation",
     "placeholder_unresolvable", "placeholder_bad_syntax", "placeholder_missing_section", "placeholder_cycle",
     "placeholder_self_reference",
     "ini_no_header", "ini_bare_line", "ini_unterminated_header",
@@ -226,6 +228,14 @@ def mutate(case):
         settab("nr", "-8")
     elif op == "grid_zero_cutoff":
         deltab("dr"), settab("cutoff", "0.0")
+    elif op == "grid_not_finite":
+        deltab("dr")
+        settab(["cutoff", "cutoff", "dr"][site % 3], ["inf", "nan", "-inf", "Infinity", "NaN"][site % 5])
+        if site % 3 == 2:
+            [deltab("cutoff"), deltab("nr")][site % 2]
+    elif op == "grid_three_with_zero":
+        settab("nr", "11"), settab("dr", "0.1"), settab("cutoff", "1.0")
+        settab(["nr", "cutoff", "dr"][site % 3], ["0", "0.0"][site % 2] if site % 3 else "0")
     elif op == "grid_nr_not_integer":
         settab("nr", "10.5")
     elif op == "grid_dr_not_number":
@@ -329,6 +339,12 @@ def mutate(case):
             t[1].append(["xy", "0.0 1.0 1.0 0.5 2.0 0.25 3.0 0.1"])
         elif op == "table_no_data":
             t[1][:] = [["interpolation", "cubic_spline"]]
+        elif op == "table_not_finite":
+            bad = ["nan", "inf", "-inf", "NaN"][site % 4]
+            if site % 3 == 0:
+                t[1][:] = [["xy", "0.0 1.0 1.0 %s 2.0 0.25 3.0 0.1 4.0 0.0" % bad]]
+            else:
+                t[1][1][1] = "1.0 0.5 %s 0.1 0.0" % bad
         elif op == "table_x_not_increasing":
             t[1][0][1] = "0.0 2.0 1.0 3.0 4.0"
         elif op == "table_x_repeated":
